@@ -197,6 +197,69 @@ def vectorised_params(G, ctx):
     ctx.count("vectorised-params")
 
 
+def vectorised_keyword_params(G, ctx, n):
+    """a parameter given BY KEYWORD must mean the same under modular_vmap / Vmap / repeat as in a plain call: lanes are drawn from
+    the documented distribution of that keyword (probs= is not silently read as the first positional parameter, logits)"""
+    import jax.numpy as jnp
+    import jax.random as jr
+    from scipy import stats
+    import genjax.distributions as D
+    fams = [
+        ("bernoulli(probs=0.9)", lambda: D.bernoulli.sample(probs=0.9), lambda p: D.bernoulli.sample(probs=p), 0.9, stats.bernoulli(0.9)),
+        ("geometric(probs=0.5)", lambda: D.geometric.sample(probs=0.5), lambda p: D.geometric.sample(probs=p), 0.5, stats.geom(0.5, loc=-1)),
+        ("binomial(6, probs=0.3)", lambda: D.binomial.sample(6.0, probs=0.3), lambda p: D.binomial.sample(6.0, probs=p), 0.3, stats.binom(6, 0.3)),
+        ("normal(loc=1, scale=0.2)", lambda: D.normal.sample(loc=1.0, scale=0.2), lambda p: D.normal.sample(loc=1.0, scale=p), 0.2, stats.norm(1.0, 0.2)),
+        ("exponential(rate=4)", lambda: D.exponential.sample(rate=4.0), lambda p: D.exponential.sample(rate=p), 4.0, stats.expon(scale=0.25)),
+    ]
+    for name, f0, f1, pval, ref in fams:
+        for how in ("axis_size", "mapped-parameter", "repeat"):
+            case = {"kind": "vectorised-keyword", "site": name, "vectorised_by": how, "draws": n}
+            try:
+                if how == "axis_size":
+                    xs = G.seed(G.modular_vmap(f0, in_axes=(), axis_size=n))(jr.key(ctx.seed + 31))
+                elif how == "mapped-parameter":
+                    xs = G.seed(G.modular_vmap(f1, in_axes=(0,)))(jr.key(ctx.seed + 32), jnp.full((n,), pval, dtype=jnp.float32))
+                else:
+                    @G.gen
+                    def site(f0=f0):
+                        return f0()
+                    # the same site inside a generative function under repeat: its choices must follow the keyword's distribution too
+                    dist = getattr(D, name.split("(")[0])
+                    kw = {"bernoulli": dict(probs=0.9), "geometric": dict(probs=0.5), "binomial": dict(probs=0.3), "normal": dict(loc=1.0, scale=0.2), "exponential": dict(rate=4.0)}[name.split("(")[0]]
+                    pos = (6.0,) if name.startswith("binomial") else ()
+
+                    @G.gen
+                    def model():
+                        return dist(*pos, **kw) @ "v"
+                    tr = G.seed(model.repeat(n).simulate)(jr.key(ctx.seed + 33))
+                    xs = tr.get_choices()["v"]
+                    lp, _ = model.repeat(n).assess(tr.get_choices())
+                    if abs(float(lp) + float(tr.get_score())) > 1e-3 * (1 + abs(float(lp))):
+                        ctx.property_failure(None, f"{name} under repeat: trace score != -assess(choices)", case)
+                xs = np.asarray(xs, dtype=np.float64)
+                if hasattr(ref.dist, "pmf"):
+                    ks = sorted(set(xs.astype(int).tolist()))
+                    probs = np.array([ref.pmf(k) for k in ks])
+                    counts = np.array([(xs.astype(int) == k).sum() for k in ks], dtype=float)
+                    keep = probs * n >= 5
+                    e = np.append(probs[keep] * n, max((1 - probs[keep].sum()) * n, 1e-9))
+                    c = np.append(counts[keep], n - counts[keep].sum())
+                    stat = float(((c - e) ** 2 / e)[e > 1e-6].sum())
+                    bad = stat > float(stats.chi2.isf(1e-6, max(1, int((e > 1e-6).sum()) - 1)))
+                    detail = f"chi2={stat:.1f}, mean {xs.mean():.3f} vs {ref.mean():.3f}"
+                else:
+                    pv = stats.kstest(xs, ref.cdf)[1]
+                    bad = pv < 1e-6
+                    detail = f"KS p={pv:.2e}, mean {xs.mean():.3f} vs {ref.mean():.3f}"
+                if bad:
+                    ctx.property_failure(None, f"{name} vectorised by {how}: the lanes do not follow the documented distribution of the keyword parameter ({detail})", {**case, "detail": detail})
+            except Exception as ex:
+                impl.reset_handlers()
+                ctx.property_failure(None, f"{name} vectorised by {how} raised {type(ex).__name__}: {str(ex)[:150]}", case)
+            ctx.case(sample=case if how == "repeat" and name.startswith("geometric") else None, nontrivial_key=("vec-kw", name, how))
+            ctx.count("vectorised-keyword")
+
+
 def user_wrapped(G, ctx):
     import jax.numpy as jnp
     import jax.random as jr
@@ -313,6 +376,7 @@ def run(ctx, audit):
     common.run_sharded(ctx, "props.c13", "shard", [(list(range(len(T)))[i::k], n) for i in range(k)])
     user_wrapped(impl.load(), ctx)
     vectorised_params(impl.load(), ctx)
+    vectorised_keyword_params(impl.load(), ctx, 3000 if ctx.thorough else 1500)
     return {"rule": RULE, "distributions": sorted({t["name"] for t in T})}
 
 
